@@ -383,7 +383,7 @@ class Gauss:
 
         elif elemType == ElemType.SEG3:
             if matrixType == MatrixType.rigi:
-                nPg = 1
+                nPg = 2
             elif matrixType == MatrixType.mass:
                 nPg = 3
             elif matrixType == MatrixType.beam:
@@ -396,7 +396,7 @@ class Gauss:
 
         elif elemType == ElemType.SEG4:
             if matrixType == MatrixType.rigi:
-                nPg = 2
+                nPg = 3
             elif matrixType == MatrixType.mass:
                 nPg = 4
             elif matrixType == MatrixType.beam:
